@@ -2,6 +2,7 @@ import PygVerif.Generated
 import PygVerif.Lemmas.TalRefine
 import PygVerif.Model.Metal
 import PygVerif.Model.Include
+import PygVerif.Lemmas.Str
 /-!
 # C17 — simpleTAL executes templates according to TAL/TALES semantics
 
@@ -322,6 +323,102 @@ theorem include_free_list : ∀ (ns : List Node) (fuel : Nat), inlineList [] fue
   | [], fuel => by simp [inlineList]
   | k :: ks, fuel => by simp [inlineList, include_free_node k fuel, include_free_list ks fuel]
 end
+
+
+/-! ### `exists:` / `nocall:` and the blanks around the alternation bar -/
+
+theorem lstrip_append_bar (p rest : Str) : lstrip (p ++ 124 :: rest) = lstrip p ++ 124 :: rest := by
+  induction p with
+  | nil =>
+    have h : isSpace 124 = false := by decide
+    simp [lstrip, h]
+  | cons c cs ih =>
+    simp only [List.cons_append, lstrip]
+    split
+    · exact ih
+    · rfl
+
+theorem splitOn_head_bar (a rest : Str) (h : 124 ∉ a) : (splitOn 124 (a ++ 124 :: rest)).headD [] = a := by
+  induction a with
+  | nil => simp [splitOn]
+  | cons c cs ih =>
+    have hc : c ≠ 124 := fun e => h (by simp [e])
+    have ih' := ih (fun hm => h (by simp [hm]))
+    simp only [List.cons_append, splitOn, hc, if_false]
+    cases hs : splitOn 124 (cs ++ 124 :: rest) with
+    | nil => exact absurd hs (splitOn_ne_nil _ _)
+    | cons f fs => simp [hs] at ih' ⊢; exact ih'
+
+theorem mem_lstrip {c : Nat} {p : Str} (h : c ∈ lstrip p) : c ∈ p := by
+  induction p with
+  | nil => simp [lstrip] at h
+  | cons d ds ih =>
+    simp only [lstrip] at h
+    split at h
+    · exact List.mem_cons_of_mem _ (ih h)
+    · exact h
+
+theorem lstrip_idem (p : Str) : lstrip (lstrip p) = lstrip p := by
+  induction p with
+  | nil => rfl
+  | cons c cs ih =>
+    simp only [lstrip]
+    split
+    · exact ih
+    · rename_i h; simp [lstrip, h]
+
+/-- **`exists:` looks at its first alternative the way it is meant, blanks or not**: whenever the first alternative,
+    stripped, is a path that is found, `exists: first | rest…` is true — whatever blanks stand around the bar and
+    whatever follows it (before repo commit 632c47c a blank before the bar made the first alternative unfindable) -/
+theorem exists_first_alternative_found (py : Str → Val) (fuel : Nat) (c : Ctx) (p rest : Str) (v : Val)
+    (hbar : 124 ∉ p) (hfound : traversePath c (strip p) = some v)
+    (hs : strip (lit "exists:" ++ p ++ 124 :: rest) = lit "exists:" ++ p ++ 124 :: rest) :
+    evalFuel py (fuel + 1) c (lit "exists:" ++ p ++ 124 :: rest) = .val (.int 1) := by
+  have e7 : lit "exists:" = [101, 120, 105, 115, 116, 115, 58] := by decide
+  have e5 : lit "path:" = [112, 97, 116, 104, 58] := by decide
+  unfold evalFuel
+  simp only [hs]
+  have hpre : isPrefixB (lit "path:") (lit "exists:" ++ p ++ 124 :: rest) = false := by
+    rw [e5, e7]; simp [isPrefixB]
+  have hex : isPrefixB (lit "exists:") (lit "exists:" ++ p ++ 124 :: rest) = true := by
+    rw [e7]; simp [isPrefixB]
+  have hdrop : (lit "exists:" ++ p ++ 124 :: rest).drop 7 = p ++ 124 :: rest := by
+    rw [e7]; simp
+  simp only [hpre, hex, Bool.false_eq_true, if_false, if_true, hdrop, lstripSp, lstrip_append_bar]
+  have hb' : 124 ∉ lstrip p := fun hm => hbar (mem_lstrip hm)
+  rw [splitOn_head_bar (lstrip p) rest hb']
+  have : strip (lstrip p) = strip p := by unfold strip; rw [lstrip_idem]
+  rw [this, hfound]
+
+/-- ... and `nocall:` hands that first alternative back as it is (it used to fall through to — and call — the next one) -/
+theorem nocall_first_alternative_found (py : Str → Val) (fuel : Nat) (c : Ctx) (p rest : Str) (v : Val)
+    (hbar : 124 ∉ p) (hfound : traversePath c (strip p) = some v)
+    (hs : strip (lit "nocall:" ++ p ++ 124 :: rest) = lit "nocall:" ++ p ++ 124 :: rest) :
+    evalFuel py (fuel + 1) c (lit "nocall:" ++ p ++ 124 :: rest) = .val v := by
+  have e7 : lit "nocall:" = [110, 111, 99, 97, 108, 108, 58] := by decide
+  have e7' : lit "exists:" = [101, 120, 105, 115, 116, 115, 58] := by decide
+  have e5 : lit "path:" = [112, 97, 116, 104, 58] := by decide
+  unfold evalFuel
+  simp only [hs]
+  have hpre : isPrefixB (lit "path:") (lit "nocall:" ++ p ++ 124 :: rest) = false := by
+    rw [e5, e7]; simp [isPrefixB]
+  have hex : isPrefixB (lit "exists:") (lit "nocall:" ++ p ++ 124 :: rest) = false := by
+    rw [e7, e7']; simp [isPrefixB]
+  have hno : isPrefixB (lit "nocall:") (lit "nocall:" ++ p ++ 124 :: rest) = true := by
+    rw [e7]; simp [isPrefixB]
+  have hdrop : (lit "nocall:" ++ p ++ 124 :: rest).drop 7 = p ++ 124 :: rest := by
+    rw [e7]; simp
+  simp only [hpre, hex, hno, Bool.false_eq_true, if_false, if_true, hdrop, lstripSp, lstrip_append_bar]
+  have hb' : 124 ∉ lstrip p := fun hm => hbar (mem_lstrip hm)
+  rw [splitOn_head_bar (lstrip p) rest hb']
+  have : strip (lstrip p) = strip p := by unfold strip; rw [lstrip_idem]
+  rw [this, hfound]
+
+/-- the hypotheses are met by the template that showed the defect: `exists: s | missing` with `s` defined -/
+example : 124 ∉ lit " s " ∧ strip (lit "exists: s | missing") = lit "exists: s | missing" ∧
+    lit "exists: s | missing" = lit "exists:" ++ lit " s " ++ 124 :: lit " missing" ∧
+    (match traversePath { globals := [(lit "s", .str (lit "v"))] } (strip (lit " s ")) with
+     | some (.str x) => x == lit "v" | _ => false) = true := by decide +kernel
 
 
 end Pyg.Props.C17
